@@ -5,7 +5,7 @@ from fractions import Fraction as Fr
 
 PID = "C08"
 TARGETS = ["Run.vo", "Conv_proofs.vo", "Float_proofs.vo", "NonVacuous/C08.vo"]
-IMPORTS = "From VF Require Import Base Show Gen_Errors Lexer Conv Run."
+IMPORTS = "From VF Require Import Base Show Gen_Errors Lexer Response Conv Tree Scripted Run."
 import vlib
 ALLOWED_AXIOMS = sorted(vlib.FLOCQ_AXIOMS)      # Flocq real-number development: the four standard-library axioms (DESIGN 4)
 PROFILES = ["debug", "release"]
@@ -35,12 +35,28 @@ def mk(ty, lit, kind):
     return {"line": "conv %s %s" % (ty, hexs(lit)), "ty": ty, "lit": lit, "kind": kind}
 
 
+def entry_points():
+    """the same conversions reached through the library's typed parameter pulls — Parameters::next_data::<T> and
+    next_optional_data::<T> — in a command handler: a wrong element must fail the command through either entry"""
+    import treegen
+    out = []
+    for ty in ("f32", "f64", "bool", "str", "bytes", "arb", "chr", "expr"):
+        sub = [("L", b"REQ", False, 1), ("L", b"OPT", False, 2)]
+        sc = {1: (["r:" + ty, "r:" + ty], ["r:" + ty, "di1"]), 2: (["o:" + ty, "o:" + ty], ["o:" + ty, "di2"])}
+        msgs = [h + b" " + a for h in (b"REQ", b"OPT", b"REQ?", b"OPT?") for a in
+                (b"1,2", b"ON,OFF", b"'x','y'", b"ZZZ", b"1,ZZZ", b"#H10", b"(1)", b"(@1)", b"2.5 V", b"#11", b"1,#11", b"MAYBE", b"'ON'", b"ABC,DEF", b"1e400", b"")]
+        for i in range(0, len(msgs), 16):
+            out.append({"line": treegen.case_line("v", sub, sc, msgs[i:i + 16]), "ty": ty, "lit": b"", "kind": "entry"})
+    return out
+
+
 def corpus():
     out = [mk("f32", b"1.000000059604644775390625000000001", "float"), mk("f32", b"340282356779733661637539395458142568447.9", "float"),
            mk("f32", b"1.00000005960464477539062499999999", "float"), mk("f64", b"0.1", "float"), mk("f64", b"2.4703282292062327e-324", "float"),
            mk("f64", b"2.4703282292062328e-324", "float"), mk("f64", b"1.7976931348623158e308", "float"), mk("f64", b"1.7976931348623159e308", "float"),
-           mk("bool", b"0.0", "bool"), mk("bool", b"1e30", "bool"), mk("bool", b"0.4", "bool"), mk("expr", b"(1,2)", "elem"), mk("expr", b"#13abc", "elem")]
-    return out
+           mk("bool", b"0.0", "bool"), mk("bool", b"1e30", "bool"), mk("bool", b"0.4", "bool"), mk("expr", b"(1,2)", "elem"), mk("expr", b"#13abc", "elem"),
+           mk("bool", b"0.49999999", "bool"), mk("bool", b"-0.499999999", "bool"), mk("bool", b"49999999E-8", "bool"), mk("bool", b"0.50000001", "bool"), mk("bool", b"0.4999999999999999999999", "bool")]
+    return out + entry_points()
 
 
 KW = KW + [x for k in (b"INFinity", b"NINFinity", b"NAN", b"MAXimum", b"MINimum") for x in keyword_near_misses(k)]
@@ -65,16 +81,22 @@ def harness_line(c): return c["line"]
 
 def case_of_line(l):
     f = l.split(" ")
+    if f[0] == "tree": return {"line": l, "ty": "", "lit": b"", "kind": "entry"}
     return mk(f[1], unhex(f[2]), "float" if f[1] in ("f32", "f64") and numlib.literal_value(unhex(f[2])) else "other")
 
 
-def coq_term(c): return "run_conv (%s) %s" % (COQTY[c["ty"]], coq_bytes(c["lit"]))
+def coq_term(c):
+    if c["kind"] == "entry":
+        import treegen
+        return treegen.coq_term(c["line"])
+    return "run_conv (%s) %s" % (COQTY[c["ty"]], coq_bytes(c["lit"]))
 def obs(s): return s
 
 
 def impl_oracle(c, r):
     if r is None: return "no result from harness"
     if r.startswith(("PANIC", "CRASH", "NOT-RUN", "HANG")): return "conversion panicked / died: " + r[:100]
+    if c["kind"] == "entry": return None
     if c["kind"] == "float":
         lv = numlib.literal_value(c["lit"])
         if lv is None: return None
@@ -95,12 +117,14 @@ def impl_oracle(c, r):
 
 
 def nontrivial(c, impl):
-    return impl is not None and not impl.startswith("E")
+    return impl is not None and not impl.startswith("E") and c["kind"] != "entry"
 
 
 def distribution(cases, impl):
     d = {"float_literals": 0, "keywords": 0, "booleans": 0, "accept_table_pairs": 0, "accepted": 0, "rejected": 0, "infinities": 0, "subnormal_or_zero": 0}
+    d["entry_point_cases"] = sum(1 for c in cases if c["kind"] == "entry")
     for c, r in zip(cases, impl):
+        if c["kind"] == "entry": continue
         d[{"float": "float_literals", "kw": "keywords", "bool": "booleans", "elem": "accept_table_pairs", "other": "accept_table_pairs"}[c["kind"]]] += 1
         if r and r.startswith("E"): d["rejected"] += 1
         else: d["accepted"] += 1
